@@ -377,6 +377,17 @@ def callables() -> list[Callable_]:
             v.nonelit = idx
             v.lits = [Lit(None, src="None") if i in idx else lit for i, lit in enumerate(cal.lits)]
             out.append(v)
+    # variants "pin 0": the first pin parameter is passed the literal 0 (a pin number like any other - in particular not "no pin given")
+    for cal in [c for c in out if not getattr(c, "nonelit", None)]:
+        if not cal.handled:
+            continue
+        zero = canon(0)
+        taken = {lit.ir for lit in cal.lits} | {canon(p.default) for p in cal.params if p.default is not inspect.Parameter.empty}
+        idx = next((i for i, p in enumerate(cal.params) if _kind(cal.cid, p.name) == "pin" and cal.observed(p.name)), None)
+        if idx is not None and zero not in taken:
+            v = copy.copy(cal)
+            v.lits = [Lit(0) if i == idx else lit for i, lit in enumerate(cal.lits)]
+            out.append(v)
     _cache = out
     return out
 
